@@ -314,6 +314,9 @@ def unit_c01(args):
         k = args["k"]
         chars, cons = tok.sym_chars(k, args.get("classes"))
         prefix = args.get("prefix") or []
+        for i, (lo, hi) in enumerate(args.get("char_ranges") or []):
+            if lo is not None:
+                cons.append(z3.And(z3.UGE(chars[i], lo), z3.ULE(chars[i], hi)))
         allch = list(prefix) + chars
         base = dict(args["base"])
         base["state"] = _tup(args["state"])
